@@ -10,7 +10,8 @@ CLAIMED = {
         "for every interval and every history of sequential calls on a monotonic clock the delay is within [0, interval] and any two releases "
         "i<j are more than (j-i-1) intervals apart; constructor refuses rps<=0 and interval 0.  The generated model is run (extracted) against "
         "the real RPSPolicer.wait_sync/wait on exhaustive small and random boundary histories, and the inequalities are re-evaluated on the implementation's results."
-        "  Through a session: C19_session_policed / C19_session_policed_count over Model/PyLayer.v (every API call of both clients, on any script of socket results: each request is released by exactly one consultation of the session's policer); real rate-limited sessions are driven for every operation with a counting policer, and the Python layer alone is run on scripted socket results against the extracted model.",
+        "  Through a session: C19_session_policed / C19_session_policed_count over Model/PyLayer.v (every API call of both clients, on any script of socket results: each request is released by exactly one consultation of the session's policer); real rate-limited sessions are driven for every operation with a counting policer, and the Python layer alone is run on scripted socket results against the extracted model; C19_program_policed extends this to programs "
+        "(several iterators and calls interleaved on one session, each continued after an exception), run the same way.",
    note="Trusted: Coq kernel/VM; py2coq translator (validated each run against policer.py); extraction (ExtrOcamlBasic) + OCaml driver; the float quotient NS/rps "
         "is an input of the constructor model; sleep/perf_counter_ns replaced by a logical clock. No axioms (Closed under the global context).",
    technique="Coq proof by induction over call histories on a model regenerated from source; differential run of extracted model vs policer.py",
@@ -154,7 +155,8 @@ CLAIMED = {
         "(C13_adopt_once, C13_engine_id_stable), user and keys never change on the receive/send path (C13_identity_stable), boots/time equal "
         "those of the most recent accepted message after ANY history (C13_time_follows), every emitted request is stamped with them "
         "(C13_stamp, C13_stamp_decodes_back), set_keys localises to the learned engine id (C13_relocalize), and the Python refresh protocol: "
-        "probe -> Report -> set_keys -> probe (C13_refresh_discovery), no-op when not needed, time sync.  57+ real sessions (all digests x "
+        "probe -> Report -> set_keys -> probe (C13_refresh_discovery), no-op when not needed, time sync, and what is left when the socket refuses "
+        "the deferred user's keys (C13_refresh_refused_keys: only the user name is replaced, the session stays to be refreshed).  68+ real sessions (all digests x "
         "ciphers x key types x given/discovered x sync/async) against an agent with generated identity and a moving clock.",
    note="Trusted: Coq kernel; hand model of socket/v3.rs and of the v3 parts of client.py/user.py tied by the API run; keys checked with hashlib/hmac. No axioms.",
    technique="Coq state-machine invariants by induction over event histories; API run with independent key derivation and MAC check",
@@ -175,7 +177,8 @@ CLAIMED = {
         "the key and the IV that RFC 3414 8.1.1.1 / RFC 3826 3.1 derive from the transmitted salt and boots/time - to exactly the reference "
         "scoped PDU followed by p < 8 (16) zero octets (C11_des_message, C11_aes_message, C11_plaintext_is_padded_scoped_pdu); the result "
         "depends only on key, salt counter, PDU, boots and time (C11_history_independent); anything the agent encrypts that way is decrypted "
-        "exactly (C11_*_decrypt_exact, C11_*_round_trip); decrypt never panics (C11_decrypt_total).  Underneath: CBC/CFB inverse laws for any "
+        "exactly (C11_*_decrypt_exact, C11_*_round_trip); decrypt never panics (C11_decrypt_total); a key change the socket refuses leaves cipher, "
+        "salt counter and digest key as they were (C11_refused_key_change, replayed octet for octet on SnmpV3ClientSocket histories).  Underneath: CBC/CFB inverse laws for any "
         "block cipher and DES decrypt after encrypt = identity for the Gallina DES (Feistel + FP o IP = id), all closed under the global "
         "context.  Model.Priv vs PrivKey::{encrypt,decrypt} on histories of interleaved sends / failed and genuine receives (debug+release), "
         "octet-identical ciphertexts; every ciphertext decrypted by the reference cipher and compared with an independently encoded scoped PDU.",
